@@ -534,9 +534,9 @@ class EligibilityMonitor(Monitor):
         app_name, prog_name = self.run.procs[namespec]
         if prog_name not in spec['groups'].get(app_name, {}):
             return 'unknown'
-        if prog_name in (spec.get('disabled') or []):
-            return 'disabled'
         changed = getattr(self.run, 'runtime_disabled', {}).get((nick, prog_name))
+        if prog_name in (spec.get('disabled') or []) and not changed:
+            return 'disabled'
         if changed:
             # disabled / enabled at run time: the requester needs the time to learn it
             if w.now - changed[0] < 3 * TICK:
